@@ -17,7 +17,8 @@ Requests:
 * `boot none` | `boot a n v`                               → `ok a n v <none | a' n' v'>`  (hashes in memory, persisted record)
 * `set <admin|normal|viewonly> key` | `restart` | `put`    → same reply
 * `prepare now origin hdr tok…`                            → `ok <user|none> <reason>`
-* `device now origin slaveHash hdr tok…`                   → `ok <1|0> <reason>`
+* `slave key` (initial slave admin hash) | `sset key` (forwarded password change) → `ok key`
+* `device now origin polled listened bodyOk hdr tok…`      → `ok <1|0> <reason> <outcome>` (uses the slave key of the state)
 * `make now origin usr key`                                → `ok <14 token fields>`
 -/
 open QtVerif QtVerif.Auth QtVerif.Proto
@@ -25,6 +26,7 @@ open QtVerif QtVerif.Auth QtVerif.Proto
 structure DState where
   cfg : Cfg := ⟨1, 0, 0, "", "", "", false⟩
   dev : Dev := ⟨noHashes, none⟩
+  slave : Key := ""
 
 def cps? (w : String) : Option (List Nat) :=
   if w = "-" then some [] else (w.splitOn ",").mapM String.toNat?
@@ -114,7 +116,7 @@ def dstep (d : DState) : List String → DState × String
     match tps.toNat?, skew.toInt?, old.toInt?, str? iss, str? alg, str? emp, bool? strict with
     | some tps, some skew, some old, some iss, some alg, some emp, some strict =>
       if tps = 0 then (d, "bad-op") else
-      ({ cfg := ⟨tps, skew, old, iss, alg, emp, strict⟩, dev := ⟨noHashes, none⟩ }, "ok")
+      ({ cfg := ⟨tps, skew, old, iss, alg, emp, strict⟩, dev := ⟨noHashes, none⟩, slave := "" }, "ok")
     | _, _, _, _, _, _, _ => (d, "bad-op")
   | ["boot", "none"] =>
     let dev := boot d.cfg.emptyHash none
@@ -145,14 +147,25 @@ def dstep (d : DState) : List String → DState × String
         else reason (parseAuthHeader d.cfg now origin true (consumerKey d.dev.mem) hdr dec)
       (d, s!"ok {match u with | some u => u.name | none => "none"} {why}")
     | _, _, _, _ => (d, "bad-op")
-  | "device" :: now :: origin :: sh :: hdr :: tok =>
-    match now.toInt?, str? origin, str? sh, cps? hdr, tok? tok with
-    | some now, some origin, some sh, some hdr, some dec =>
-      let ok := deviceAuth d.cfg now origin sh hdr dec
+  | ["slave", k] =>
+    match str? k with
+    | some k => ({ d with slave := k }, s!"ok {fmtS k}")
+    | none => (d, "bad-op")
+  | ["sset", k] =>
+    match str? k with
+    | some k =>
+      let h := hstep d.cfg.emptyHash ⟨d.dev, d.slave⟩ (.slaveSet k)
+      ({ d with dev := h.dev, slave := h.slave }, s!"ok {fmtS h.slave}")
+    | none => (d, "bad-op")
+  | "device" :: now :: origin :: polled :: listened :: bodyOk :: hdr :: tok =>
+    match now.toInt?, str? origin, bool? polled, bool? listened, bool? bodyOk, cps? hdr, tok? tok with
+    | some now, some origin, some polled, some listened, some bodyOk, some hdr, some dec =>
+      let ok := deviceAuth d.cfg now origin d.slave hdr dec
       let why := if hdr = [] then "nohdr"
-        else reason (parseAuthHeader d.cfg now origin false (fun _ => sh) hdr dec)
-      (d, s!"ok {fmtB ok} {why}")
-    | _, _, _, _, _ => (d, "bad-op")
+        else reason (parseAuthHeader d.cfg now origin false (fun _ => d.slave) hdr dec)
+      let out := eventsOutcome d.cfg now origin d.slave polled listened bodyOk hdr dec
+      (d, s!"ok {fmtB ok} {why} {out.toString}")
+    | _, _, _, _, _, _, _ => (d, "bad-op")
   | ["make", now, origin, usr, key] =>
     match now.toInt?, str? origin, ostr? usr, str? key with
     | some now, some origin, some usr, some key => (d, "ok " ++ fmtTok (makeTok d.cfg now origin usr key))
